@@ -98,7 +98,7 @@ impl DeflateWriter {
                             &mut self.output,
                             LITLEN_CODE_COUNT as u16 - 2,
                         );
-                        self.bitwriter.write(5, 31, &mut self.output);
+                        self.bitwriter.write(31, 5, &mut self.output);
                     } else {
                         let lencode = quantize_length(reference.len());
                         huffman_writer.write_literal(
@@ -115,22 +115,22 @@ impl DeflateWriter {
                                 &mut self.output,
                             );
                         }
+                    }
 
-                        let distcode = quantize_distance(reference.dist());
-                        huffman_writer.write_distance(
-                            &mut self.bitwriter,
+                    let distcode = quantize_distance(reference.dist());
+                    huffman_writer.write_distance(
+                        &mut self.bitwriter,
+                        &mut self.output,
+                        distcode as u16,
+                    );
+
+                    let distextra = DIST_EXTRA_TABLE[distcode];
+                    if distextra > 0 {
+                        self.bitwriter.write(
+                            reference.dist() - 1 - DIST_BASE_TABLE[distcode] as u32,
+                            distextra.into(),
                             &mut self.output,
-                            distcode as u16,
                         );
-
-                        let distextra = DIST_EXTRA_TABLE[distcode];
-                        if distextra > 0 {
-                            self.bitwriter.write(
-                                reference.dist() - 1 - DIST_BASE_TABLE[distcode] as u32,
-                                distextra.into(),
-                                &mut self.output,
-                            );
-                        }
                     }
                 }
             }
